@@ -13,6 +13,7 @@ package main
 import (
 	"crypto/sha256"
 	"fmt"
+	"math/big"
 	"os"
 	"runtime/pprof"
 	"time"
@@ -73,14 +74,15 @@ type worker struct {
 	db   *kv.BadgerDB
 	cur  reg.Snapshot // current content of db
 	uses int
+	views *sync.Map // real states that passed the full oracle -> their description
 }
 
 // outcome of applying one block on a live node
 type blockResult struct {
 	key      string
 	snap     reg.Snapshot
+	kmLine   string
 	findings []finding
-	lines    []string // getters view without block number
 }
 
 func catOf(line string) string {
@@ -110,7 +112,7 @@ var kindName = map[reg.Kind]string{reg.OpAdd: "OperatorAdded", reg.OpRemove: "Op
 
 // stateKey is the canonical form of a real state: raw registry dump without the block number,
 // what the key manager holds, and the in-memory views.
-func stateKey(n *reg.Node, dump reg.Snapshot, km reg.KMView) string {
+func stateKey(dump reg.Snapshot, km reg.KMView, mem []string) string {
 	h := sha256.New()
 	for _, kv := range dump {
 		if !strings.HasPrefix(kv.K, reg.RegistryPrefix) || strings.HasSuffix(kv.K, "/syncOffset") {
@@ -130,7 +132,7 @@ func stateKey(n *reg.Node, dump reg.Snapshot, km reg.KMView) string {
 		ks = append(ks, fmt.Sprintf("r%s=%d", k, c))
 	}
 	sort.Strings(ks)
-	fmt.Fprintf(h, "sp=%v;mem=%v", ks, n.DescribeMemory())
+	fmt.Fprintf(h, "sp=%v;mem=%v", ks, mem)
 	return fmt.Sprintf("%x", h.Sum(nil)[:16])
 }
 
@@ -151,8 +153,20 @@ func (w *worker) start(s reg.Snapshot) *reg.Node {
 	return n
 }
 
+// lastBlockLine renders the last processed block as stored in a snapshot.
+func lastBlockLine(dump reg.Snapshot) string {
+	for _, e := range dump {
+		if e.K == reg.RegistryPrefix+"syncOffset" {
+			return fmt.Sprintf("lastBlock: %d", new(big.Int).SetBytes([]byte(e.V)).Uint64())
+		}
+	}
+	return "lastBlock: none"
+}
+
 // applyBlock runs one block of events on the live node, advances the model, and evaluates the
-// oracle.
+// oracle. Real states that already passed the full oracle (same raw dump, key-manager content and
+// in-memory views) are only compared with the model; new ones get the full treatment: getters,
+// raw database, in-memory views, restarted node.
 func (w *worker) applyBlock(n *reg.Node, m *reg.Model, evs []int, blk uint64) blockResult {
 	fx := w.fx
 	var logs []ethtypes.Log
@@ -179,90 +193,103 @@ func (w *worker) applyBlock(n *reg.Node, m *reg.Model, evs []int, blk uint64) bl
 		add("tasks", []string{"tasks"}, fmt.Sprintf("tasks handed to the executor differ from the rules: got %v want %v", tasks, wantTasks), tasks, wantTasks)
 	}
 	km := n.ObserveKM(false)
-	want := m.Describe(true)
-	getters := n.DescribeGetters(true, km.Line())
-	if d := reg.Diff(getters, want); len(d) > 0 {
-		add("getters-vs-rules", d, "state read through the storage getters differs from the registration rules: "+strings.Join(d, " ; "), getters, want)
-	}
 	dump := reg.TakeSnapshot(w.db)
-	rawView := reg.DescribeRaw(fx, dump, w.cfg.OwnKey, n.Net.Domain, km.Line(), true)
-	if d := reg.Diff(rawView, want); len(d) > 0 {
-		add("database-vs-rules", d, "raw database content differs from the registration rules: "+strings.Join(d, " ; "), rawView, want)
-	}
 	mem := n.DescribeMemory()
-	if d := reg.Diff(mem, reg.MemoryLines(rawView)); len(d) > 0 {
-		add("memory-vs-database", d, "in-memory view differs from the database: "+strings.Join(d, " ; "), mem, reg.MemoryLines(rawView))
+	key := stateKey(dump, km, mem)
+	want := m.Describe(true)
+	wantState, wantBlock := want[:len(want)-1], want[len(want)-1]
+	if got := lastBlockLine(dump); got != wantBlock {
+		add("database-vs-rules", []string{"lastBlock"}, fmt.Sprintf("last processed block in the database: %s, expected %s", got, wantBlock), got, wantBlock)
 	}
-	// restart: a node rebuilt on the same database must present the same in-memory views and keys
-	n2, err := reg.NewNode(fx, w.cfg, w.db, &reg.Clock{Slot: reg.StartSlot}, nil)
-	if err != nil {
-		add("restart", []string{"restart"}, "restart on the database failed: "+err.Error(), err.Error(), nil)
+	if cached, ok := w.views.Load(key); ok {
+		if d := reg.Diff(cached.([]string), wantState); len(d) > 0 {
+			add("getters-vs-rules", d, "state read through the storage getters differs from the registration rules: "+strings.Join(d, " ; "), cached, wantState)
+		}
 	} else {
-		after := append(n2.DescribeMemory(), n2.ObserveKM(false).Line())
-		before := append(mem, km.Line())
-		if d := reg.Diff(after, before); len(d) > 0 {
-			add("restart", d, "a restarted node presents another state: "+strings.Join(d, " ; "), after, before)
+		before := len(res.findings)
+		getters := n.DescribeGetters(true, km.Line())
+		if d := reg.Diff(getters, want); len(d) > 0 {
+			add("getters-vs-rules", d, "state read through the storage getters differs from the registration rules: "+strings.Join(d, " ; "), getters, want)
+		}
+		rawView := reg.DescribeRaw(fx, dump, w.cfg.OwnKey, n.Net.Domain, km.Line(), true)
+		if d := reg.Diff(rawView, want); len(d) > 0 {
+			add("database-vs-rules", d, "raw database content differs from the registration rules: "+strings.Join(d, " ; "), rawView, want)
+		}
+		if d := reg.Diff(mem, reg.MemoryLines(rawView)); len(d) > 0 {
+			add("memory-vs-database", d, "in-memory view differs from the database: "+strings.Join(d, " ; "), mem, reg.MemoryLines(rawView))
+		}
+		// restart: a node rebuilt on the same database must present the same in-memory views and keys
+		n2, err := reg.NewNode(fx, w.cfg, w.db, &reg.Clock{Slot: reg.StartSlot}, nil)
+		if err != nil {
+			add("restart", []string{"restart"}, "restart on the database failed: "+err.Error(), err.Error(), nil)
+		} else {
+			after := append(n2.DescribeMemory(), n2.ObserveKM(false).Line())
+			bef := append(append([]string{}, mem...), km.Line())
+			if d := reg.Diff(after, bef); len(d) > 0 {
+				add("restart", d, "a restarted node presents another state: "+strings.Join(d, " ; "), after, bef)
+			}
+		}
+		if len(res.findings) == before {
+			w.views.Store(key, getters[:len(getters)-1])
 		}
 	}
 	// environment: beacon metadata arrives after the block
 	if len(n.SetMetadata()) > 0 {
-		getters = n.DescribeGetters(true, km.Line())
 		dump = reg.TakeSnapshot(w.db)
+		key = stateKey(dump, km, n.DescribeMemory())
 	}
 	m.SetMetadata()
-	res.key = stateKey(n, dump, km)
-	res.lines = getters[:len(getters)-1] // without the block number
-	res.snap = dump
+	res.key, res.snap, res.kmLine = key, dump, km.Line()
 	w.cur = dump
 	return res
 }
 
+// lines renders a result for messages (from its snapshot, no database needed).
+func (w *worker) lines(r blockResult) []string {
+	return reg.DescribeRaw(w.fx, r.snap, w.cfg.OwnKey, reg.NetConfig(&reg.Clock{}).Domain, r.kmLine, false)
+}
+
 type child struct {
 	n        *node
+	res      blockResult
 	findings []finding
 	event    int
 }
 
-// expand applies every event to the node, in both batchings, each on a fresh real node.
-func (w *worker) expand(p *node, nEvents int) (out []child, transitions int) {
-	fx := w.fx
-	own := fmt.Sprintf("K%d", w.cfg.OwnKey)
+func (w *worker) trace(n *node) map[string]interface{} {
+	return map[string]interface{}{"own_key": fmt.Sprintf("K%d", w.cfg.OwnKey), "blocks": n.names(w.fx)}
+}
+
+// expandSame applies every event appended to the open block of p (committed | pending+e), each
+// on a fresh real node.
+func (w *worker) expandSame(p *node, nEvents int) (out []child) {
 	for e := 0; e < nEvents; e++ {
-		// same block: committed | pending+e
 		same := append(append([]int{}, p.pending...), e)
 		m := p.mS.Clone()
 		rs := w.applyBlock(w.start(p.sS), m, same, uint64(len(p.blocks)+1))
-		transitions++
-		cs := child{n: &node{blocks: p.blocks, pending: same, mS: p.mS, mR: m, sS: p.sS, sR: rs.snap, keyS: p.keyS, keyR: rs.key}, findings: rs.findings, event: e}
-		for i := range cs.findings {
-			cs.findings[i].trace = map[string]interface{}{"own_key": own, "blocks": cs.n.names(fx)}
+		c := child{n: &node{blocks: p.blocks, pending: same, mS: p.mS, mR: m, sS: p.sS, sR: rs.snap, keyS: p.keyS, keyR: rs.key}, res: rs, findings: rs.findings, event: e}
+		for i := range c.findings {
+			c.findings[i].trace = w.trace(c.n)
 		}
-		out = append(out, cs)
-		if len(p.pending) == 0 {
-			continue // an empty open block: the two batchings coincide
-		}
-		// new block: committed + pending | e
-		blocks2 := append(append([][]int{}, p.blocks...), p.pending)
-		m2 := p.mR.Clone()
-		rnew := w.applyBlock(w.start(p.sR), m2, []int{e}, uint64(len(blocks2)+1))
-		transitions++
-		cn := child{n: &node{blocks: blocks2, pending: []int{e}, mS: p.mR, mR: m2, sS: p.sR, sR: rnew.snap, keyS: p.keyR, keyR: rnew.key}, findings: rnew.findings, event: e}
-		for i := range cn.findings {
-			cn.findings[i].trace = map[string]interface{}{"own_key": own, "blocks": cn.n.names(fx)}
-		}
-		// the two batchings of the same sequence must end in the same state
-		if rs.key != rnew.key {
-			d := reg.Diff(rs.lines, rnew.lines)
-			last := fx.Events[e]
-			cn.findings = append(cn.findings, finding{
-				sig:      fmt.Sprintf("batching-dependence last=%s diff=%s", kindName[last.Kind], cats(d)),
-				what:     fmt.Sprintf("the same event sequence ends in different states when %s is put in the same block or in a new block: %s", last.Name, strings.Join(d, " ; ")),
-				trace:    map[string]interface{}{"own_key": own, "one_block": cs.n.names(fx), "two_blocks": cn.n.names(fx)},
-				observed: map[string]interface{}{"one_block": rs.lines, "two_blocks": rnew.lines}})
-		}
-		out = append(out, cn)
+		out = append(out, c)
 	}
-	return out, transitions
+	return out
+}
+
+// expandNew applies every event as a new block after the open block of p has been committed
+// (committed + pending | e). The result only depends on the state after the open block.
+func (w *worker) expandNew(p *node, nEvents int) (out []child) {
+	blocks2 := append(append([][]int{}, p.blocks...), p.pending)
+	for e := 0; e < nEvents; e++ {
+		m2 := p.mR.Clone()
+		rn := w.applyBlock(w.start(p.sR), m2, []int{e}, uint64(len(blocks2)+1))
+		c := child{n: &node{blocks: blocks2, pending: []int{e}, mS: p.mR, mR: m2, sS: p.sR, sR: rn.snap, keyS: p.keyR, keyR: rn.key}, res: rn, findings: rn.findings, event: e}
+		for i := range c.findings {
+			c.findings[i].trace = w.trace(c.n)
+		}
+		out = append(out, c)
+	}
+	return out
 }
 
 type search struct {
@@ -273,6 +300,36 @@ type search struct {
 	depth    int
 	workers  []*worker
 	outcomes map[string]int
+	pairs    int
+}
+
+// parallel runs f(worker, i) for i in [0,n) on the worker pool; false if the deadline hit.
+func (s *search) parallel(n int, f func(w *worker, i int)) bool {
+	idx := make(chan int, n)
+	for i := 0; i < n; i++ {
+		idx <- i
+	}
+	close(idx)
+	var wg sync.WaitGroup
+	var mu sync.Mutex
+	ok := true
+	for _, w := range s.workers {
+		wg.Add(1)
+		go func(w *worker) {
+			defer wg.Done()
+			for i := range idx {
+				if s.r.Expired() {
+					mu.Lock()
+					ok = false
+					mu.Unlock()
+					return
+				}
+				f(w, i)
+			}
+		}(w)
+	}
+	wg.Wait()
+	return ok
 }
 
 func (s *search) run() (states, nodes, transitions int, complete bool) {
@@ -284,7 +341,7 @@ func (s *search) run() (states, nodes, transitions int, complete bool) {
 	n0 := w0.start(nil)
 	m := reg.NewModel(s.cfg.OwnKey)
 	snap := reg.TakeSnapshot(w0.db)
-	key := stateKey(n0, snap, n0.ObserveKM(false))
+	key := stateKey(snap, n0.ObserveKM(false), n0.DescribeMemory())
 	if len(s.prefix) > 0 {
 		blocks = [][]int{s.prefix}
 		r0 := w0.applyBlock(n0, m, s.prefix, 1)
@@ -296,69 +353,94 @@ func (s *search) run() (states, nodes, transitions int, complete bool) {
 	root := &node{blocks: blocks, mS: m, mR: m, sS: snap, sR: snap, keyS: key, keyR: key}
 	seen := map[string]bool{root.key(): true}
 	distinct := map[string]bool{key: true}
+	newFrom := map[string][]child{} // state after the open block -> results of every event as a new block
 	frontier := []*node{root}
-	complete = true
-	for d := 0; d < s.depth && len(frontier) > 0; d++ {
-		results := make([][]child, len(frontier))
-		trans := make([]int, len(frontier))
-		idx := make(chan int, len(frontier))
-		for i := range frontier {
-			idx <- i
+	var next []*node
+	handle := func(parentKeyR string, c child) {
+		e := fx.Events[c.event]
+		if len(c.findings) > 0 {
+			for _, f := range c.findings {
+				s.outcomes["VIOLATION "+strings.SplitN(f.sig, " ", 2)[0]]++
+				s.r.Violate(f.sig, f.what, "c11", f.trace, f.observed, f.expected)
+			}
+			return
 		}
-		close(idx)
-		var wg sync.WaitGroup
-		expired := false
-		var mu sync.Mutex
-		for _, w := range s.workers {
-			wg.Add(1)
-			go func(w *worker) {
-				defer wg.Done()
-				for i := range idx {
-					if s.r.Expired() {
-						mu.Lock()
-						expired = true
-						mu.Unlock()
-						return
-					}
-					results[i], trans[i] = w.expand(frontier[i], nEvents)
-				}
-			}(w)
+		changed := "unchanged"
+		if c.n.keyR != parentKeyR {
+			changed = "changed"
 		}
-		wg.Wait()
-		var next []*node
-		for i := range frontier {
-			transitions += trans[i]
-			for _, c := range results[i] {
-				e := fx.Events[c.event]
-				if len(c.findings) > 0 {
-					for _, f := range c.findings {
-						s.outcomes["VIOLATION "+strings.SplitN(f.sig, " ", 2)[0]]++
-						s.r.Violate(f.sig, f.what, "c11", f.trace, f.observed, f.expected)
-					}
-					continue
-				}
-				changed := "unchanged"
-				if c.n.keyR != frontier[i].keyR {
-					changed = "changed"
-				}
-				s.outcomes[kindName[e.Kind]+" state "+changed]++
-				distinct[c.n.keyR] = true
-				if k := c.n.key(); !seen[k] {
-					seen[k] = true
-					next = append(next, c.n)
-					if len(seen)%5000 == 0 {
-						s.r.Sample(map[string]interface{}{"own_key": fmt.Sprintf("K%d", s.cfg.OwnKey), "blocks": c.n.names(fx), "state": c.n.mR.Describe(true)})
-					}
-				}
+		s.outcomes[kindName[e.Kind]+" state "+changed]++
+		distinct[c.n.keyR] = true
+		if k := c.n.key(); !seen[k] {
+			seen[k] = true
+			next = append(next, c.n)
+			if len(seen)%2000 == 0 {
+				s.r.Sample(map[string]interface{}{"own_key": fmt.Sprintf("K%d", s.cfg.OwnKey), "blocks": c.n.names(fx), "state": c.n.mR.Describe(true)})
 			}
 		}
-		if expired {
+	}
+	for d := 0; d < s.depth && len(frontier) > 0; d++ {
+		next = nil
+		// phase 1: every event appended to the open block of every frontier node
+		same := make([][]child, len(frontier))
+		ok := s.parallel(len(frontier), func(w *worker, i int) { same[i] = w.expandSame(frontier[i], nEvents) })
+		// phase 2: every event as a new block, once per distinct state after the open block
+		var reps []*node
+		repOf := map[string]bool{}
+		for _, p := range frontier {
+			if len(p.pending) > 0 && newFrom[p.keyR] == nil && !repOf[p.keyR] {
+				repOf[p.keyR] = true
+				reps = append(reps, p)
+			}
+		}
+		fresh := make([][]child, len(reps))
+		if ok {
+			ok = s.parallel(len(reps), func(w *worker, i int) { fresh[i] = w.expandNew(reps[i], nEvents) })
+		}
+		if !ok {
+			for _, l := range same {
+				transitions += len(l)
+			}
+			for _, l := range fresh {
+				transitions += len(l)
+			}
 			s.r.CapHit(fmt.Sprintf("deadline at depth %d (own key K%d, prefix %d)", d, s.cfg.OwnKey, len(s.prefix)))
 			return len(distinct), len(seen), transitions, false
 		}
+		// phase 3 (sequential, deterministic order): merge
+		for i, p := range reps {
+			newFrom[p.keyR] = fresh[i]
+			transitions += len(fresh[i])
+			for _, c := range fresh[i] {
+				handle(p.keyR, c)
+			}
+		}
+		for i, p := range frontier {
+			transitions += len(same[i])
+			for _, c := range same[i] {
+				handle(p.keyR, c)
+				if len(p.pending) == 0 {
+					continue // an empty open block: the two batchings coincide
+				}
+				// the two batchings of the same sequence must end in the same state
+				cn := newFrom[p.keyR][c.event]
+				s.pairs++
+				if c.n.keyR != cn.n.keyR {
+					l1, l2 := w0.lines(c.res), w0.lines(cn.res)
+					dd := reg.Diff(l1, l2)
+					last := fx.Events[c.event]
+					two := append(append([]string{}, p.names(fx)...), "["+last.Name+"]")
+					s.outcomes["VIOLATION batching-dependence"]++
+					s.r.Violate(fmt.Sprintf("batching-dependence last=%s diff=%s", kindName[last.Kind], cats(dd)),
+						fmt.Sprintf("the same event sequence ends in different states when %s is put in the same block or in a new block: %s", last.Name, strings.Join(dd, " ; ")),
+						"c11", map[string]interface{}{"own_key": fmt.Sprintf("K%d", s.cfg.OwnKey), "one_block": c.n.names(fx), "two_blocks": two},
+						map[string]interface{}{"one_block": l1, "two_blocks": l2}, nil)
+				}
+			}
+		}
 		frontier = next
 	}
-	return len(distinct), len(seen), transitions, complete
+	return len(distinct), len(seen), transitions, true
 }
 
 func main() {
@@ -391,6 +473,9 @@ func main() {
 	if r.Thorough() {
 		depth = 5
 	}
+	if v := os.Getenv("C11_DEPTH"); v != "" {
+		fmt.Sscan(v, &depth)
+	}
 	opsPrefix := []int{fx.ByName["opAdd(1,K1)"], fx.ByName["opAdd(2,K2)"], fx.ByName["opAdd(3,K3)"], fx.ByName["opAdd(4,K4)"]}
 	opsPrefix5 := append(append([]int{}, opsPrefix...), fx.ByName["opAdd(5,K5)"])
 	type cfg struct {
@@ -404,8 +489,9 @@ func main() {
 	var bounds []string
 	for _, c := range cfgs {
 		s := &search{r: r, fx: fx, cfg: reg.Config{OwnKey: c.own}, prefix: c.prefix, depth: c.depth, outcomes: outcomes}
+		views := &sync.Map{}
 		for i := 0; i < nWorkers; i++ {
-			s.workers = append(s.workers, &worker{fx: fx, cfg: s.cfg, db: reg.NewDB()})
+			s.workers = append(s.workers, &worker{fx: fx, cfg: s.cfg, db: reg.NewDB(), views: views})
 		}
 		st, nodes, tr, ok := s.run()
 		for _, w := range s.workers {
@@ -414,6 +500,7 @@ func main() {
 		r.Add("states", st)
 		r.Add("search_nodes", nodes)
 		r.Add("transitions", tr)
+		r.Add("batching_pairs_compared", s.pairs)
 		exhaustive = exhaustive && ok
 		bounds = append(bounds, fmt.Sprintf("own=K%d prefix=[%s] depth=%d alphabet=%d: states=%d nodes(state,open block)=%d transitions=%d complete=%v",
 			c.own, evNames(fx, c.prefix), c.depth, len(fx.Events), st, nodes, tr, ok))
@@ -456,7 +543,7 @@ func replay(r *ev.Run, fx *reg.Fixture) {
 		}
 		return out
 	}
-	w := &worker{fx: fx, cfg: reg.Config{OwnKey: own}, db: reg.NewDB()}
+	w := &worker{fx: fx, cfg: reg.Config{OwnKey: own}, db: reg.NewDB(), views: &sync.Map{}}
 	runOne := func(label string, blocks [][]int) ([]string, bool) {
 		n := w.start(nil)
 		m := reg.NewModel(own)
@@ -465,14 +552,14 @@ func replay(r *ev.Run, fx *reg.Fixture) {
 		for i, b := range blocks {
 			res = w.applyBlock(n, m, b, uint64(i+1))
 			fmt.Printf("  after block %d [%s]:\n", i+1, evNames(fx, b))
-			for _, l := range res.lines {
+			for _, l := range w.lines(res) {
 				fmt.Println("     ", l)
 			}
 			for _, f := range res.findings {
 				fmt.Printf("    finding: %s\n      %s\n", f.sig, f.what)
 			}
 		}
-		return res.lines, len(res.findings) > 0
+		return w.lines(res), len(res.findings) > 0
 	}
 	bad := false
 	if tr["blocks"] != nil {
